@@ -119,6 +119,12 @@ CHECKS = {
             "every DATA frame of every recorded connection must fit the ledger, queued data must drain, provoked overflows/overruns must draw FLOW_CONTROL_ERROR and honest peers none, "
             "returned credit may never exceed bytes received and must be within 4096 of them at quiescence.",
             "Client ledger = upper bound (increases at send, decreases at ack); the client transport is not driven; D16 (over-returned connection credit after a client RST mid-body) is reported as KNOWN-FINDING."),
+    'C08': ("Rewrite.tla (end-to-end headers kept, hop-by-hop removed, Host rule, request-target identity) and Relay.tla (FIFO relay with free re-framing, conservation + liveness) "
+            "checked by TLC; Rewrite scenarios replayed through the real stack; real end-to-end runs with keyed body bytes recorded at both ends and validated by TLC (Trace_Relay.tla)",
+            "Header/URL/Host rules are decided for all scenarios in the bound and replayed one by one; for bodies every piece received by the backend or the client must be the next "
+            "contiguous range of its own request's keyed byte stream, ends must come after the last byte with the announced method/target/headers/status/trailers, and every exchange "
+            "must complete - under concurrent keep-alive and multiplexed traffic, both protocols, PreserveHost on and off.",
+            "Request trailers are logged only; Accept-Encoding: gzip added by Go's transport, header-name case, User-Agent defaulting, Cookie merging and re-framing are dont-care; D12 is reported as KNOWN-FINDING."),
 }
 
 NOT_YET = {}
